@@ -325,3 +325,29 @@ func vh_CondSwap() {
 		verif.Assert(b.inner[i] == verif.IteU64(choice == 1, a0.inner[i], b0.inner[i]), "swap: b")
 	}
 }
+
+// ---- back-end specific helpers for the abstract layer (fa.go) ----
+
+func VerifVal(e *Element) verif.Int { return val51(&e.inner) }
+func mulInOK(e *Element) bool       { return limbsBelow(&e.inner, inBits) }
+func redOutOK(e *Element) bool      { return limbsBelow(&e.inner, outBits) }
+func addInOK(e *Element) bool       { return limbsBelow(&e.inner, 63) }
+func subBOK(e *Element) bool        { return limbsBelow(&e.inner, inBits) }
+func sq2OutOK(e *Element) bool      { return limbsBelow(&e.inner, outBits+1) }
+func VerifAnyElement(name string) Element {
+	return *anyElement(name)
+}
+
+// condSel writes the selected limbs as if-then-else terms (what the mask arithmetic computes; the bit-precise
+// obligations ConditionalSelect/Assign/Swap show that equality for choice in {0,1}).
+func condSel(fe, a, b *Element, pickB bool) {
+	var r Element
+	for i := 0; i < 5; i++ {
+		if pickB {
+			r.inner[i] = b.inner[i]
+		} else {
+			r.inner[i] = a.inner[i]
+		}
+	}
+	*fe = r
+}
